@@ -274,7 +274,10 @@ func (r *resolver) applyDeviation(y *Module, d *Deviation) error {
 			notifs := target.Parent().(HasNotifications).Notifications()
 			delete(notifs, target.Ident())
 		default:
-			hasDDefs := target.Parent().(HasDataDefinitions)
+			hasDDefs, valid := target.Parent().(HasDataDefinitions)
+			if !valid {
+				return fmt.Errorf("deviation %s. removing this kind of definition is not supported", d.Ident())
+			}
 			existing := hasDDefs.popDataDefinitions()
 			for _, candidate := range existing {
 				if candidate != target {
@@ -291,6 +294,49 @@ func (r *resolver) applyDeviation(y *Module, d *Deviation) error {
 	hasDets, _ := target.(HasDetails)
 	hasType, _ := target.(Leafable)
 	hasListDets, _ := target.(HasListDetails)
+	if _, isAny := target.(*Any); isAny {
+		// has neither units nor default
+		hasType = nil
+	}
+	// properties can only be deviated on the kind of definitions that have them
+	applicable := func(details, elements, leafProps, unique, musts bool) error {
+		if details && hasDets == nil {
+			return fmt.Errorf("deviation %s. target has neither config nor mandatory", d.Ident())
+		}
+		if elements && hasListDets == nil {
+			return fmt.Errorf("deviation %s. target has neither min-elements nor max-elements", d.Ident())
+		}
+		if leafProps && hasType == nil {
+			return fmt.Errorf("deviation %s. target has neither units nor default", d.Ident())
+		}
+		if _, isList := target.(*List); unique && !isList {
+			return fmt.Errorf("deviation %s. only lists have unique", d.Ident())
+		}
+		if _, hasMusts := target.(HasMusts); musts && !hasMusts {
+			return fmt.Errorf("deviation %s. target cannot have must", d.Ident())
+		}
+		return nil
+	}
+	if d.Add != nil {
+		if err := applicable(d.Add.configPtr != nil || d.Add.mandatoryPtr != nil,
+			d.Add.maxElementsPtr != nil || d.Add.minElementsPtr != nil,
+			d.Add.units != "" || d.Add.HasDefault(), len(d.Add.unique) > 0, len(d.Add.musts) > 0); err != nil {
+			return err
+		}
+	}
+	if d.Replace != nil {
+		if err := applicable(d.Replace.configPtr != nil || d.Replace.mandatoryPtr != nil,
+			d.Replace.maxElementsPtr != nil || d.Replace.minElementsPtr != nil,
+			d.Replace.units != "" || d.Replace.HasDefault(), false, false); err != nil {
+			return err
+		}
+	}
+	if d.Delete != nil {
+		if err := applicable(false, false, d.Delete.units != "" || d.Delete.HasDefault(),
+			len(d.Delete.unique) > 0, len(d.Delete.musts) > 0); err != nil {
+			return err
+		}
+	}
 	if d.Add != nil {
 		if d.Add.configPtr != nil {
 			if hasDets.IsConfigSet() {
